@@ -40,12 +40,16 @@ RULE = (
     "Selector and CompiledSelector vs fresh objects) and through the stream / JSON readers; (ii) a record matched, modified "
     "by attribute assignment, matched again: the second answer equals a fresh selector's.  Grouped records of one name but "
     "varying composition (lacking k/l/n first then having them, and the reverse) through stream / stream.gz / jsonfile in all "
-    "selector forms, in loops in both directions, and in the fresh-process order comparison.  A filter case is non-trivial when the source "
+    "selector forms, in loops in both directions, and in the fresh-process order comparison.  Sources also include "
+    "CONCATENATED streams (2-3 complete record streams in one file: plain, gzip of the whole, gzip members), whose embedded "
+    "header frame must never reach the selector.  Text form: the post-filter uses a fresh interpreted Selector(text); family "
+    "text-engine runs expressions on which the engines are known to differ (only there) after the same text was compiled "
+    "in the process.  A filter case is non-trivial when the source "
     "holds >= 2 records; it is *discriminating* when the selector keeps some but not all records (counted per adapter, "
     "required > 0); distinct = distinct (adapter, sequence seed, expression, form)."
 )
 ASSUMPTIONS = [
-    "text selectors are compared against the engine the library's own make_selector() chooses for text",
+    "a text selector handed to a reader is interpreted by contract (make_selector(text) -> Selector): the post-filter for the text form uses a fresh Selector(text)",
     "the comparison is between reads of the same source, so what an adapter cannot represent (csv: everything is text) does not matter; "
     "a source whose two selector-less reads differ in more than _generated is skipped and counted",
     "outcome of a match = truth value of the result, or the exception class; exception messages are not compared",
@@ -56,6 +60,10 @@ BUDGET_S = {"quick": 150, "thorough": 900}
 ADAPTERS = {
     "stream": {"ext": ".records", "multi": True},
     "stream-gz": {"ext": ".records.gz", "multi": True},
+    # two or three complete record streams appended into one file: a RECORDSTREAM header frame in the middle of the stream
+    "stream-concat": {"ext": ".records", "multi": True, "concat": "plain"},
+    "stream-concat-gz": {"ext": ".records.gz", "multi": True, "concat": "gzip-of-whole"},
+    "stream-concat-gzmembers": {"ext": ".records.gz", "multi": True, "concat": "gzip-members"},
     "jsonfile": {"ext": ".json", "multi": True},
     "jsonfile-plain": {"ext": ".jsonl", "multi": False, "plain": True},  # plain JSON lines: the reader's fallback branch
     "avro": {"ext": ".avro", "multi": False},
@@ -111,6 +119,13 @@ LIST_HELPER_EXPR = [
 FOLLOWUPS = [
     '"Hello" in r.l', 'any(x == "HELLO" for x in r.l)', 'any(x != lower(x) for x in r.l)', 'any(x != upper(x) for x in r.l)', '"Hello" in r.sl',
     'any(x != lower(x) for x in r.sl)', 'r.s == "Hello"', 'r.s != lower(r.s)',
+]
+# expressions on which the two engines are KNOWN to answer differently (C07 / C08 known findings, interpreted-only helpers):
+# used ONLY by the text-engine family - a text selector must reach the reader as an interpreted Selector even when the very
+# same text was compiled earlier in the process (rdump compiles by default)
+ENGINE_DIVERGENT = [
+    'Type.net.ipaddress in net.ipnetwork("10.0.0.0/8")', 'Type.net.ipaddress in net.ipnetwork("::/0")', 'r.missing not in [1]',
+    '"x" not in r.missing', 'any(f.name == "ip" for f in fields("net.ipaddress"))', 'string("Hello") == r.t', 'r.zz not in ["a"] and r.ip',
 ]
 INTERLEAVE_PAIRS = [("small", "other"), ("flat", "small"), ("other", "flat"), ("nested", "small"), ("small", "main-full")]
 
@@ -316,6 +331,32 @@ def write_source(url, records, adapter=None):
                 f.write(json.dumps({k: (v if v is None or isinstance(v, (bool, float)) else (int(v) if isinstance(v, int) else str(v)))
                                     for k, v in d.items()}) + "\n")
         return
+    concat = ADAPTERS[adapter].get("concat") if adapter else None
+    if concat:
+        import gzip
+
+        n = len(records)
+        nparts = 3 if n >= 6 else 2
+        cuts = [round(i * n / nparts) for i in range(nparts + 1)]
+        parts = [records[cuts[i]:cuts[i + 1]] for i in range(nparts)]
+        blobs = []
+        for i, part in enumerate(parts):
+            tmp = "%s.part%d.records" % (url, i)
+            try:
+                write_source(tmp, part)
+                with open(tmp, "rb") as f:
+                    blobs.append(f.read())
+            finally:
+                _unlink(tmp)
+        if concat == "plain":
+            data = b"".join(blobs)
+        elif concat == "gzip-of-whole":
+            data = gzip.compress(b"".join(blobs))
+        else:
+            data = b"".join(gzip.compress(b) for b in blobs)
+        with open(url, "wb") as f:
+            f.write(data)
+        return
     w = RecordWriter(url)
     try:
         for r in records:
@@ -519,6 +560,12 @@ def generate(ctx):
                 if ctx.mine(idx):
                     yield {"k": "grouped", "adapter": adapter, "order": order, "expr": e, "ek": "grouped", "seq": subseed("c10", "grouped", order, ei % 5)}
                 idx += 1
+    # text selectors are interpreted, also after the same text was compiled in this process
+    for adapter in ("stream", "jsonfile", "csvfile", "sqlite", "stream-concat"):
+        for ei, e in enumerate(ENGINE_DIVERGENT):
+            if ctx.mine(idx):
+                yield {"k": "textengine", "adapter": adapter, "expr": e, "seq": subseed("c10", "textengine", adapter, ei % 3), "shape": "other"}
+            idx += 1
     # the same record object matched, modified by attribute assignment, matched again
     for i in range(ctx.scale(12, 60) if True else 0):
         yield {"k": "mutate", "pool": subseed("c10", ctx.seed, ctx.shard, "mutpool", i), "engine": ("interpreted", "compiled")[i % 2]}
@@ -551,6 +598,8 @@ def execute(ctx, case):
         run_filter(ctx, case)
     elif case["k"] == "cold":
         run_cold(ctx, case)
+    elif case["k"] == "textengine":
+        run_textengine(ctx, case)
     elif case["k"] == "ignored":
         run_ignored(ctx, case)
     elif case["k"] == "grouped":
@@ -574,7 +623,8 @@ def make_form(ctx, form, expr):
 def fresh(ctx, form, expr):
     selector = ctx.state["selector"]
     if form == "text":
-        return selector.make_selector(expr)
+        # a text selector is interpreted by contract (make_selector(text) -> Selector): the post-filter says so explicitly
+        return selector.Selector(expr)
     if form == "selector":
         return selector.Selector(expr)
     return selector.CompiledSelector(expr)
@@ -637,7 +687,7 @@ def run_filter(ctx, case, prebuilt=None):
             ek, expr = case.get("ek", "given"), case["expr"]
         else:
             ek, expr = pick_expression(case["es"], plain, case.get("force"))
-        for form in FORMS:
+        for form in case.get("forms", FORMS):
             filter_one(ctx, case, adapter, kind, url, expr, ek, form, plain, plain_obs, ob, e1)
     finally:
         _unlink(path)
@@ -659,7 +709,14 @@ def filter_one(ctx, case, adapter, kind, url, expr, ek, form, plain, plain_obs, 
     rec.reset()
     got, got_exc = read_all(url, selector=sel_arg)
     got_obs = [ob(r) for r in got]
-    got_raised_on = ob(rec.raised_on) if (got_exc is not None and rec.raised_on is not None) else None
+    got_raised_on = None
+    if got_exc is not None and rec.raised_on is not None:
+        try:
+            got_raised_on = ob(rec.raised_on)
+        except Exception:  # noqa: BLE001 - the reader handed match() something that is not a record
+            got_raised_on = ["not-a-record", type(rec.raised_on).__name__, repr(rec.raised_on)[:80]]
+            ctx.violation(None, "the reader handed the selector something that is not a record (%s)" % adapter,
+                          detail=dict(detail, handed=got_raised_on))
     calls_a = rec.calls
 
     # side B: read everything, test each record afterwards with a fresh selector object
@@ -846,6 +903,28 @@ def run_ignored(ctx, case):
         ctx.require(False, "the ignore-fields configuration could not be restored")
 
 
+def run_textengine(ctx, case):
+    """The text was compiled first in this process (as rdump does by default); a reader given the same text must still
+    filter with the interpreted engine."""
+    selector = ctx.state["selector"]
+    expr = case["expr"]
+    for prime in (lambda: selector.make_selector(expr, force_compiled=True), lambda: selector.CompiledSelector(expr),
+                  lambda: selector.make_selector(selector.Selector(expr), force_compiled=True)):
+        try:
+            prime()
+        except Exception:  # noqa: BLE001
+            ctx.event("textengine_prime_raised")
+    seq, kind = build_sequence(ctx, case["adapter"], case["seq"], case.get("shape"))
+    # non-vacuity: on these records the two engines really give different outcomes
+    a = [outcome_of(lambda r=r: selector.Selector(expr).match(r)) for r in seq]
+    b = [outcome_of(lambda r=r: selector.CompiledSelector(expr).match(r)) for r in seq]
+    if a != b:
+        ctx.event("textengine_engines_differ_in_memory")
+    ctx.event("textengine_cases")
+    run_filter(ctx, dict(case, ek="engine-divergent", forms=("text",)), prebuilt=(seq, kind) if len(seq) >= 2 else None)
+    ctx.cell("text-is-interpreted", case["adapter"])
+
+
 def run_grouped(ctx, case):
     seq = grouped_sequence(case["seq"], case["order"])
     detail = {"expression": case["expr"], "order": case["order"], "records": len(seq)}
@@ -958,6 +1037,8 @@ def finish(ctx):
     ev = ctx.events
     ctx.require(ev["compared_ok"] > 0, "no filter case was compared")
     ctx.require(ev["purity_cases"] > 0, "no purity case ran")
+    ctx.require(ev["textengine_cases"] == 0 or ev["textengine_engines_differ_in_memory"] > 0,
+                "the text-engine family never met records on which the two engines differ")
     ctx.require(ev["mutate_answer_changes"] > 0, "no mutate-then-rematch case in which the answer changes ran")
     ctx.require(ev["followup_comparisons"] > 0, "no follow-up comparison against a fresh copy of the pool ran")
     ctx.require(ev["cold_batches"] > 0 and ev["cold_discriminating"] > 0, "the fresh-process order comparison did not run (or had no discriminating expression)")
